@@ -24,6 +24,9 @@ def plan(tier, seed):
         specs.append({"name": f"rand{i}", "kind": "rand", "index": i, "cases": 8000 if tier == "quick" else 400000,
                       "budget_s": 60 if tier == "quick" else 420})
     specs.append({"name": "contracts", "kind": "contracts"})
+    # one cipher object shared by four threads, each with its own key, a thread switch forced at every third statement
+    specs.append({"name": "shared-by-threads", "kind": "threads", "primitive_monitors": False,
+                  "rounds": 150 if tier == "quick" else 3000, "budget_s": 60 if tier == "quick" else 300})
     specs.append({"name": "hostile-callers", "kind": "hostile", "rounds": 300 if tier == "quick" else 6000,
                   "forks": 6 if tier == "quick" else 40})
     if tier == "thorough":
@@ -48,7 +51,7 @@ class Mon:
         acc = self.acc
         kl = len(key)
         mclass = "empty" if not m else ("aligned" if len(m) % 16 == 0 else "unaligned")
-        case = {"key": key, "message": m}
+        case = {"key": key, "message": m} if len(m) <= 65536 else {"key": key, "message_length": len(m)}
         acc.count("enc.cases")
         acc.add("msg_lens", len(m))
         try:
@@ -124,6 +127,9 @@ def run_shard(spec, acc, ctx):
         from vlib import repotests
         repotests.run(acc, ctx, ["test/test_sse_schemes/test_CJJ14_PiBas.py", "test/test_sse_schemes/test_CT14_Pi.py",
                                  "test/test_sse_schemes/test_CJJ14_PiPack.py"], ["insitu:aes"])
+        return
+    if kind == "threads":
+        threads(acc, ctx, spec)
         return
     if kind == "hostile":
         hostile(acc, ctx, spec)
@@ -228,6 +234,16 @@ def run_shard(spec, acc, ctx):
             if len(seen) != n:
                 acc.violation("aes:repeated-ciphertext", f"{n} encryptions of one (key, message) produced only "
                                                          f"{len(seen)} different ciphertexts", {"key": key, "message": m})
+        # whole mebibytes and their neighbours (an implementation that works in pieces must still pad the last one)
+        ske = cls(key_length=24)
+        mon2 = Mon(acc)
+        key = rng.randbytes(24)
+        for mib in (1, 2, 3):
+            for d in (-16, -1, 0, 1, 16):
+                mon2.one(ske, key, rng.randbytes(mib * (1 << 20) + d), rng)
+                acc.count("cases")
+                acc.count("mebibyte_messages")
+                acc.add("distinct", fp("mib", mib, d))
         # tampered / malformed ciphertexts are refused or at least never yield the message
         ske = cls(key_length=16)
         key = rng.randbytes(16)
@@ -390,14 +406,71 @@ def hostile(acc, ctx, spec):
             break
 
 
+def threads(acc, ctx, spec):
+    """The cipher object holds no per-call state, so four threads may share it: every thread round-trips its own
+    messages under its own key and recomputes each ciphertext independently from the IV it observes."""
+    import os
+    import threading
+    import toolkit.symmetric_encryption as se
+    from vlib import instrument
+    rng = ctx.rng
+    cls = se.get_symmetric_encryption_implementation("AES-CBC")
+    repo = os.environ.get("VERIF_REPO", "/repo")
+    for kl in KEY_LENGTHS:
+        ske = cls(key_length=kl)
+        keys = [rng.randbytes(kl) for _ in range(4)]
+        msgs = [[rng.randbytes(rng.choice([0, 5, 16, 31, 64])) for _ in range(8)] for _ in range(4)]
+        bad = []
+        done = [0] * 4
+        stop = threading.Event()
+
+        def worker(i):
+            def go():
+                for r in range(spec["rounds"]):
+                    if stop.is_set() or ctx.out_of_time():
+                        return
+                    m = msgs[i][r % 8]
+                    try:
+                        c = ske.Encrypt(keys[i], m)
+                        back = ske.Decrypt(keys[i], c)
+                    except Exception as e:
+                        back, c = e, b""
+                    if back != m or (c and ref_encrypt(keys[i], c[:16], m) != c):
+                        bad.append((i, r, repr(back)[:60]))
+                        stop.set()
+                        return
+                    done[i] += 1
+            return go
+        with instrument.YieldInjector(repo) as yi:
+            errs = instrument.run_threads([worker(i) for i in range(4)])
+        acc.count("threads.round_trips", sum(done))
+        acc.count("threads.forced_switch_points", yi.yields)
+        acc.count("cases")
+        acc.add("distinct", fp("threads", kl))
+        if any(isinstance(e, TimeoutError) for e in errs):
+            acc.count("threads.watchdog")
+            acc.note("thread workload hit its watchdog")
+        if bad:
+            i, r, what = bad[0]
+            acc.violation("aes:wrong-when-shared-by-threads",
+                          f"four threads share one cipher object, each with its own key: thread {i}'s round trip #{r} "
+                          f"gave {what} (its ciphertext is not AES-CBC of its message under its key)",
+                          {"key_length": kl, "threads": True})
+            return
+
+
 def replay(case, acc, ctx):
     import toolkit.symmetric_encryption as se
+    if case.get("threads"):
+        threads(acc, ctx, {"rounds": 300})
+        acc.count("replayed")
+        return
     if case.get("hostile"):
         hostile(acc, ctx, {"rounds": 300, "forks": 6})
         acc.count("replayed")
         return
-    if "key" in case and "message" in case:
-        key, m = case["key"], case["message"]
+    if "key" in case and ("message" in case or "message_length" in case):
+        key, m = case["key"], case.get("message", bytes(case.get("message_length", 0)))
         ske = se.get_symmetric_encryption_implementation("AES-CBC")(key_length=len(key))
         Mon(acc).one(ske, key, m, ctx.rng)
 
@@ -411,6 +484,8 @@ def finish(m, tier, seed):
         inc.append("exhaustive 0..80 sweep missing for a key length")
     if c.get("contract.message-length", 0) < 10 or c.get("contract.key-length-enc", 0) < 10:
         inc.append("length contracts not exercised")
+    if c.get("threads.round_trips", 0) < 300 or c.get("threads.forced_switch_points", 0) < 1000:
+        inc.append("the shared-by-threads workload observed too little")
     if c.get("hostile.fork_pairs", 0) < 3 or c.get("hostile.reseed", 0) < 100:
         inc.append("hostile-caller workloads (fork, re-seed, reused buffers) did not run")
     if "toolkit/symmetric_encryption/aes.py:AESxCBC.Encrypt" not in m["sets"].get("functions_entered", []):
@@ -430,6 +505,7 @@ def finish(m, tier, seed):
         "wrong_key": {"raised": c.get("dec.wrong_key.raised", 0), "returned_other": c.get("dec.wrong_key.returned", 0)},
         "contract_checks": {k[9:]: v for k, v in c.items() if k.startswith("contract.")},
         "hostile_callers": {k[8:]: v for k, v in c.items() if k.startswith("hostile.")},
+        "one_object_shared_by_four_threads": {k[8:]: v for k, v in c.items() if k.startswith("threads.")},
         "insitu_contract_evaluations": {k: v for k, v in c.items() if k.startswith("insitu.")},
         "repository_tests_under_monitors": {k: v for k, v in c.items() if k.startswith("repo_tests.")},
     }
